@@ -252,45 +252,52 @@ func minimise(t *testing.T, sc *Scenario, plan any, seed uint64, decisions []str
 	} else {
 		return plan, decisions, v, tries
 	}
-	// plan shrinking
-	if sc.Shrink != nil {
-		progress := true
-		for progress && tries < budget {
-			progress = false
-			for _, cand := range sc.Shrink(plan) {
-				if tries >= budget {
-					break
-				}
-				if r, got := try(cand, decisions); got != nil {
-					plan, decisions, v = cand, r.Decisions, *got
-					progress = true
-					break
+	// alternate plan shrinking and schedule shrinking until neither makes progress
+	for round := 0; round < 6 && tries < budget; round++ {
+		progressed := false
+		if sc.Shrink != nil {
+			progress := true
+			for progress && tries < budget {
+				progress = false
+				for _, cand := range sc.Shrink(plan) {
+					if tries >= budget {
+						break
+					}
+					if r, got := try(cand, decisions); got != nil {
+						plan, decisions, v = cand, r.Decisions, *got
+						progress, progressed = true, true
+						break
+					}
 				}
 			}
 		}
-	}
-	// schedule: truncate, then remove context switches chunk-wise
-	for tries < budget && len(decisions) > 0 {
-		cut := decisions[:len(decisions)/2]
-		r, got := try(plan, cut)
-		if got == nil || len(r.Decisions) >= len(decisions) {
+		// schedule: truncate, then remove decisions chunk-wise (fewer context switches)
+		for tries < budget && len(decisions) > 0 {
+			cut := decisions[:len(decisions)/2]
+			r, got := try(plan, cut)
+			if got == nil || len(r.Decisions) >= len(decisions) {
+				break
+			}
+			decisions, v = r.Decisions, *got
+			progressed = true
+		}
+		chunk := len(decisions) / 4
+		for chunk >= 1 && tries < budget {
+			changed := false
+			for i := 0; i+chunk <= len(decisions) && tries < budget; i += chunk {
+				cand := append(append([]string{}, decisions[:i]...), decisions[i+chunk:]...)
+				r, got := try(plan, cand)
+				if got != nil && len(r.Decisions) < len(decisions) {
+					decisions, v = r.Decisions, *got
+					changed, progressed = true, true
+				}
+			}
+			if !changed {
+				chunk /= 2
+			}
+		}
+		if !progressed {
 			break
-		}
-		decisions, v = r.Decisions, *got
-	}
-	chunk := len(decisions) / 4
-	for chunk >= 1 && tries < budget {
-		changed := false
-		for i := 0; i+chunk <= len(decisions) && tries < budget; i += chunk {
-			cand := append(append([]string{}, decisions[:i]...), decisions[i+chunk:]...)
-			r, got := try(plan, cand)
-			if got != nil && len(r.Decisions) < len(decisions) {
-				decisions, v = r.Decisions, *got
-				changed = true
-			}
-		}
-		if !changed {
-			chunk /= 2
 		}
 	}
 	return plan, decisions, v, tries
